@@ -107,6 +107,8 @@ def random_cases(family, rng, count):
         if family == "repeat":
             a, b = rng.randint(1, 12), rng.randint(1, 4)
             out.append({"fn": "repeat", "x": X, "y": Y, "r": a, "container": rng.choice(["array", "list"])})
+            if rng.random() < 0.2:
+                out[-1]["r_kind"] = "np"
             if rng.random() < 0.4:
                 # integer abscissae held in a narrow integer array whose range the extension leaves (hours, sample numbers)
                 t, ix = rng.choice([0, 0, 1, 24, 100, -100, -20]), []
@@ -170,7 +172,7 @@ def random_cases(family, rng, count):
 
 
 CASE_KEYS = ("fn", "x", "y", "r", "a", "b", "left", "right", "lr", "rr", "start", "stop", "step", "explicit_none", "q", "n", "mode",
-             "qcontainer", "xcontainer", "explicit_method", "x0", "y0", "pre", "c", "normalized", "axis", "other", "lo", "hi", "op", "v", "container", "method", "m", "b", "xoff")
+             "qcontainer", "xcontainer", "explicit_method", "x0", "y0", "pre", "c", "normalized", "axis", "other", "lo", "hi", "op", "v", "container", "method", "m", "b", "xoff", "r_kind")
 
 
 def case_of_event(ev):
